@@ -18,11 +18,28 @@ def main(argv):
     except ModuleNotFoundError as e:
         print(f"no check for {prop}: {e}")
         return 2
+    run = None
     try:
         lake_build()
         run = Run(prop, tier, LEVELS.get(prop, "proof"))
         run.obligations.extend(audit(prop, tier))
-        mod.check(run, Driver())
+        try:
+            mod.check(run, Driver())
+        except Infra:
+            raise
+        except Exception as e:  # noqa
+            # an exception escaping from the IMPLEMENTATION (innermost frames under the repository) on an input the generators
+            # consider valid is a failure of the property on that input, not a tool failure
+            import os
+            from common import REPO
+            tb = traceback.extract_tb(e.__traceback__)
+            impl_frames = [f for f in tb if os.path.abspath(f.filename).startswith(str(REPO) + os.sep)]
+            if not impl_frames or not os.path.abspath(tb[-1].filename).startswith((str(REPO) + os.sep, "/venv/")):
+                raise
+            run.prop_fail("the implementation raised an exception on an input the property quantifies over",
+                          {"exception": repr(e), "where": [f"{f.filename}:{f.lineno} {f.name}" for f in impl_frames[-3:]],
+                           "harness_frame": next((f"{f.filename}:{f.lineno}" for f in reversed(tb) if "/verif/harness/" in f.filename), "")},
+                          {"clause": "total"}, traceback.format_exc()[-1500:])
         return run.finish()
     except Infra as e:
         print(f"INFRASTRUCTURE FAILURE ({prop}): {e}")
